@@ -169,4 +169,6 @@ def main():
 
 
 if __name__ == "__main__":
-    main()
+    from harness import project as _self  # one module instance, so that project_more registers into the OBS used here
+
+    _self.main()
